@@ -347,11 +347,19 @@ func remoteFeeds(c *ev.Ctx, caseNo *int) {
 			case 1:
 				p := g.Posts[r.Intn(len(g.Posts))]
 				inputs = append(inputs, p.ID)
-				sources = append(sources, g.Children(g.ViewOf(p)))
+				if p.Gone != "" {
+					sources = append(sources, nil) // its address does not load: the source contributes nothing
+				} else {
+					sources = append(sources, g.Children(g.ViewOf(p)))
+				}
 			default:
 				a := g.Actors[r.Intn(len(g.Actors))]
 				inputs = append(inputs, a.ID)
-				sources = append(sources, g.Children(g.ViewOf(a)))
+				if a.Gone != "" {
+					sources = append(sources, nil)
+				} else {
+					sources = append(sources, g.Children(g.ViewOf(a)))
+				}
 			}
 		}
 		if !c.Begin(n, fmt.Sprintf("remote feed of %d sources", len(inputs))) {
